@@ -31,9 +31,9 @@ fn blk(ctx: &mut Ctx) {
     let name = subj_name(&d);
     ctx.subject(&name);
     let w = ctx.cfg.par;
-    let (iv, _) = wl::iv(&mut ctx.rng, d.iv_len);
+    let (iv, _) = mode_iv(ctx, d.iv_len);
     let n = if fam == Family::Cfb8 { wl::nbytes(&mut ctx.rng, ctx.cfg.bs, w, ctx.tier).0.min(200) } else { wl::nblocks(&mut ctx.rng, w, d.bs, ctx.tier).0 };
-    let (data, dc) = wl::data(&mut ctx.rng, n * d.bs);
+    let (data, dc) = mode_data(ctx, n * d.bs);
     let (sizes, sc) = wl::schedule(&mut ctx.rng, n, w);
     // the same schedule, once with in-place kinds and once with their b2b twins
     let ip_kinds = [BKind::BlockIp, BKind::BlocksIp, BKind::BlocksInoutIp];
@@ -103,7 +103,7 @@ fn padded(ctx: &mut Ctx) {
     let name = format!("{}/padded", subj_name(&d));
     ctx.subject(&name);
     let b = d.bs;
-    let (iv, _) = wl::iv(&mut ctx.rng, d.iv_len);
+    let (iv, _) = mode_iv(ctx, d.iv_len);
     let (mut len, rc) = wl::nbytes(&mut ctx.rng, b.max(2), ctx.cfg.par, ctx.tier);
     if fam == Family::Cfb8 {
         len = len.min(200);
@@ -111,7 +111,7 @@ fn padded(ctx: &mut Ctx) {
     if pad == Pad::NoPadding {
         len -= len % b;
     }
-    let (msg, _) = wl::data(&mut ctx.rng, len);
+    let (msg, _) = mode_data(ctx, len);
     ctx.note("iv", J::s(hex_short(&iv)));
     ctx.note("msg", J::s(hex_short(&msg)));
     ctx.note("padding", J::s(pad.name()));
@@ -169,12 +169,12 @@ fn oneshot(ctx: &mut Ctx) {
     let name = format!("{}/oneshot", subj_name(&d));
     ctx.subject(&name);
     let b = ctx.cfg.bs;
-    let (iv, _) = wl::iv(&mut ctx.rng, d.iv_len);
+    let (iv, _) = mode_iv(ctx, d.iv_len);
     let (mut len, rc) = wl::nbytes(&mut ctx.rng, b, ctx.cfg.par, ctx.tier);
     if fam == Family::Cfb8 {
         len = len.min(300);
     }
-    let (msg, _) = wl::data(&mut ctx.rng, len);
+    let (msg, _) = mode_data(ctx, len);
     ctx.note("iv", J::s(hex_short(&iv)));
     ctx.note("msg", J::s(hex_short(&msg)));
     let mut outs = Vec::new();
@@ -218,7 +218,7 @@ fn stream(ctx: &mut Ctx) {
     let b = ctx.cfg.bs;
     let (iv, _) = stream_iv(ctx, d.flavor, b);
     let (len, rc) = wl::nbytes(&mut ctx.rng, b, ctx.cfg.par, ctx.tier);
-    let (msg, _) = wl::data(&mut ctx.rng, len);
+    let (msg, _) = mode_data(ctx, len);
     let (sched, sc) = wl::byte_schedule(&mut ctx.rng, len, b);
     ctx.note("iv", J::s(hex_short(&iv)));
     ctx.note("msg", J::s(hex_short(&msg)));
@@ -289,7 +289,7 @@ fn core(ctx: &mut Ctx) {
     let (iv, _) = stream_iv(ctx, d.flavor, b);
     let (n, _) = wl::nblocks(&mut ctx.rng, w, b, ctx.tier);
     let tail = if ctx.rng.coin() { ctx.rng.below(b) } else { 0 };
-    let (msg, _) = wl::data(&mut ctx.rng, n * b + tail);
+    let (msg, _) = mode_data(ctx, n * b + tail);
     let (sizes, sc) = wl::schedule(&mut ctx.rng, n, w);
     let fill = nonzero_fill(ctx);
     ctx.note("iv", J::s(hex_short(&iv)));
@@ -356,10 +356,10 @@ fn cts(ctx: &mut Ctx) {
     let name = format!("{}/{}", d.var.name(), dir.name());
     ctx.subject(&name);
     let b = ctx.cfg.bs;
-    let (iv, _) = wl::iv(&mut ctx.rng, b);
+    let (iv, _) = mode_iv(ctx, b);
     let (extra, rc) = wl::nbytes(&mut ctx.rng, b, ctx.cfg.par, ctx.tier);
-    let len = (b + extra).min(wl::MAX_BYTES);
-    let (data, _) = wl::data(&mut ctx.rng, len);
+    let len = (b + extra).min(wl::MAX_LONG_BYTES);
+    let (data, _) = mode_data(ctx, len);
     ctx.note("iv", J::s(hex_short(&iv)));
     ctx.note("data", J::s(hex_short(&data)));
     let key = ctx.key.clone();
